@@ -325,9 +325,9 @@ class Facts:
                 r.append(t[6])
             return r
         if k == "assert":
-            r = [t[7]]
-            if with_unwind and t[8] is not None:
-                r.append(t[8])
+            r = [t[6]]
+            if with_unwind and t[7] is not None:
+                r.append(t[7])
             return r
         if k == "other":
             return list(t[3])
